@@ -41,6 +41,10 @@ Go packages), never wiped between runs.
               locals, local types / consts, labels, receivers, closure parameters, type-switch variables called T or
               Marshal<T>, plus struct fields and methods called T; 1-2 packages, bound through `models:` or `autobind:`.
               The binder indexes a package by identifier NAME over the map TypesInfo.Defs (`h_c18 -mode find` + driver `idx`).
+  collisions  schemas whose type / enum-value / field names collide after Go name normalisation (FooBar / foo_bar / FOO_BAR,
+              UserId / UserID / user_id, Plan2 / plan_2), kinds mixed, every colliding type referenced from fields of
+              DIFFERENT generated models: the process-global name registry hands out FooBar, FooBar0 in request order.
+  start_dirs  (not a generator) the directories inside ANY project the generator process is started from, by class.
   template_sets  (not projects) template sets for templates.Render: 0-4 `!.gotpl` roots x 0-4 ordinary roots, `_.gotpl`
               includes, templates defined inside files, sub-directories, foreign files (`h_c18 -mode render` + driver `roots`).
 """
@@ -875,6 +879,174 @@ def load_template_corpus(cdir):
 
 
 # ------------------------------------------------------------------------------------------------ writing
+# ------------------------------------------------------------------------------------------------ collisions
+# spellings of one name that templates.ToGo normalises to the SAME Go identifier (case, underscores, initialisms, digits)
+def _spellings(a, b):
+    la, lb = a.lower(), b.lower()
+    return [a + b, la + "_" + lb, a + "_" + b, la + b, a.upper() + "_" + b.upper(), a + "_" + lb, la + "_" + b, a + b + "_", a + "__" + lb]
+
+
+def _spell_family(rng):
+    r = rng.below(4)
+    a = WORDS[rng.below(len(WORDS))]
+    if r == 0:      # initialism at the end: UserId / UserID / user_id / USER_ID / User_Id
+        ini = ["Id", "Url", "Api", "Http", "Uuid"][rng.below(5)]
+        return [a + ini, a + ini.upper(), a.lower() + "_" + ini.lower(), a.upper() + "_" + ini.upper(), a + "_" + ini, a.lower() + ini.upper()]
+    if r == 1:      # digits: Plan2 / plan_2 / Plan_2 / PLAN_2
+        n = str(2 + rng.below(8))
+        return [a + n, a.lower() + "_" + n, a + "_" + n, a.upper() + "_" + n, a.lower() + n]
+    b = WORDS[rng.below(len(WORDS))]
+    return _spellings(a, b)
+
+
+def collisions(rng, name, groups=None):
+    """Schemas whose type / enum-value / field names COLLIDE after Go name normalisation, referenced across models.
+    1-3 groups of 2-3 types (objects, inputs, enums, interfaces, unions - kinds mixed inside a group) spelled so that
+    templates.ToGo maps them to one Go name; every member is the type of a field of 1-2 OTHER generated models (different
+    models for different members, plus sometimes one model that references several members), so that whichever code asks the
+    process-global name registry (templates.ToGoModelName: FooBar, FooBar0, ... first come first served) for these names
+    from a loop over a map decides the suffixes by the map seed. Sometimes: an enum whose VALUES collide, a model whose FIELD
+    names collide. `skip_validation: true`: upstream binds clashing names loosely (the output need not compile - C17's
+    business); C18 only asks for identical bytes. meta["more_processes"]: compared over more separate processes."""
+    ngroups = groups or 1 + rng.below(3)
+    used = set()
+    words = [w for w in shuffle(rng, WORDS)]
+    sdl, q, members_meta = [], [], []
+    ref_objs, ref_ins = [], []
+    all_out_members = []
+
+    def fresh_ref(prefix):
+        if not words:
+            words.extend("%s%d" % (w, len(used) + i) for i, w in enumerate(shuffle(rng, WORDS)))
+        return prefix + words.pop()
+
+    for g in range(ngroups):
+        fam = None
+        for _ in range(20):
+            fam = [x for x in _spell_family(rng) if x not in used]
+            if len(set(fam)) >= 3 and not any(x.lower().replace("_", "") in {u.lower().replace("_", "") for u in used} for x in fam):
+                break
+        fam = shuffle(rng, sorted(set(fam)))[:2 + rng.below(2)]
+        used.update(fam)
+        # upstream binds EVERY member of a group to <model pkg>.<ToGo name> (the member that got the plain name); a struct
+        # there fails the implements / union-member check of an abstract type and nothing is generated - so a group is
+        # either structs and enums, or ONE abstract type (interfaces are emitted first: it gets the plain name) + inputs / enums
+        grp = []
+        abstract = rng.below(3) == 0
+        for j, m in enumerate(fam):
+            if abstract:
+                kind = ["interface", "union"][rng.below(2)] if j == 0 else ["input", "enum"][rng.below(2)]
+            else:
+                kind = ["object", "object", "object", "input", "enum"][rng.below(5)]
+            grp.append((m, kind))
+        members_meta.append([{"name": m, "kind": k} for m, k in grp])
+        for m, kind in grp:
+            nref = 1 + rng.below(2)
+            wrap = ["%s", "%s!", "[%s!]", "[%s]!"][rng.below(4)]
+            if kind == "object":
+                sdl.append("type %s {\n  ident: ID!\n  label: String\n}" % m)
+            elif kind == "input":
+                sdl.append("input %s {\n  ident: ID!\n  label: String\n}" % m)
+            elif kind == "enum":
+                sdl.append("enum %s {\n  FIRST\n  SECOND\n}" % m)
+            elif kind == "interface":
+                impl = fresh_ref("Impl")
+                sdl.append("interface %s {\n  ident: ID!\n}\ntype %s implements %s {\n  ident: ID!\n}" % (m, impl, m))
+                q.append("%s: %s" % (impl.lower(), impl))
+            else:
+                u1, u2 = fresh_ref("Arm"), fresh_ref("Arm")
+                sdl.append("union %s = %s | %s\ntype %s {\n  ident: ID!\n}\ntype %s {\n  count: Int\n}" % (m, u1, u2, u1, u2))
+            if kind != "input":
+                all_out_members.append((m, wrap))
+            for _ in range(nref):
+                if kind == "input" or (kind == "enum" and rng.below(2) == 0):
+                    r_ = fresh_ref("In")
+                    sdl.append("input %s {\n  ident: ID\n  value: %s\n}" % (r_, wrap % m))
+                    ref_ins.append(r_)
+                else:
+                    r_ = fresh_ref("Ref")
+                    sdl.append("type %s {\n  ident: ID!\n  value: %s\n}" % (r_, wrap % m))
+                    ref_objs.append(r_)
+    extras = {}
+    if len(all_out_members) >= 2 and rng.below(2) == 0:
+        # one model that references several members (its field order fixes ITS requests, the other referers still race)
+        r_ = fresh_ref("Hub")
+        fs = ["%s: %s" % (FIELDS[i], w % m) for i, (m, w) in enumerate(shuffle(rng, all_out_members)[:3])]
+        sdl.append("type %s {\n  %s\n}" % (r_, "\n  ".join(fs)))
+        ref_objs.append(r_)
+        extras["hub"] = r_
+    if rng.below(2) == 0:
+        # enum VALUES that collide (goModelName <enum> <value>)
+        e = fresh_ref("Shade")
+        vals = shuffle(rng, ["DARK_RED", "darkRed", "Dark_red", "dark_red", "DarkRed"])[:2 + rng.below(3)]
+        sdl.append("enum %s {\n  %s\n  PLAIN\n}" % (e, "\n  ".join(vals)))
+        q.append("shade: %s" % e)
+        extras["enum_values"] = vals
+    if rng.below(3) == 0:
+        # FIELD names that collide inside one model
+        r_ = fresh_ref("Twin")
+        sdl.append("type %s {\n  item_code: Int\n  itemCode: Int\n  ident: ID!\n}" % r_)
+        ref_objs.append(r_)
+        extras["field_names"] = ["item_code", "itemCode"]
+    for r_ in ref_objs:
+        q.append("%s: %s" % (r_[0].lower() + r_[1:], r_))
+    for r_ in ref_ins:
+        q.append("with%s(in: %s): Boolean" % (r_, r_))
+    sdl = shuffle(rng, sdl)
+    sdl.append("type Query {\n  %s\n}" % "\n  ".join(shuffle(rng, q)))
+    opts = {}
+    for o in BOOL_OPTS:
+        r = rng.below(5)
+        if r < 2:
+            opts[o] = "true" if r else "false"
+    layout = ["follow", "single", "none"][rng.below(3)]
+    model_pkg = ["model", "model", name][rng.below(3)]
+    if model_pkg == name:
+        y = yml(name, layout, "").replace("model:\n  filename: model/models_gen.go\n  package: model\n", "model:\n  filename: models_gen.go\n  package: %s\n" % name)
+    else:
+        y = yml(name, layout, "")
+    y += "skip_validation: true\n" + "".join("%s: %s\n" % kv for kv in sorted(opts.items()))
+    return {"files": {"schema.graphql": "\n".join(sdl) + "\n", "gqlgen.yml": y},
+            "meta": {"dimension": "collisions", "more_processes": True, "groups": members_meta, "extras": extras, "options": opts}}
+
+
+# ------------------------------------------------------------------------------------------------ start directories
+START_CLASSES = ("root", "out", "deep", "sub", "schema", "tool", "below")
+
+
+def start_dirs(d):
+    """Directories INSIDE project d from which `gqlgen generate` can be started, by class (derived from the project's own
+    gqlgen.yml, so every project - random, directed, corpus - gets them):
+      root    the directory of gqlgen.yml
+      out     the directories generated files go to (exec / model / resolver / federation dir), the ones that are not the root
+      below   a directory below the exec directory that holds no package (<exec dir>/zz_inner)
+      schema  the directories schema files live in, the ones that are not the root
+      sub, deep, tool   directories unrelated to the configuration: sub, sub/deep, cmd/tool
+    Returns {class: [relative dir, ...]} (every class non-empty: `out` / `schema` fall back to `tool`)."""
+    y = open(os.path.join(d, "gqlgen.yml")).read()
+    outs, exec_dir = [], ""
+    for sec in re.finditer(r"^(exec|model|resolver|federation):\n((?:[ \t]+.*\n?)+)", y, re.M):
+        for k, v in re.findall(r"^[ \t]+(filename|dir):[ \t]*([^\n#]+)", sec.group(2), re.M):
+            v = v.strip().strip('"\'')
+            x = os.path.normpath(os.path.dirname(v) if k == "filename" else v)
+            if os.path.isabs(x) or x.startswith(".."):
+                continue
+            if sec.group(1) == "exec":
+                exec_dir = "" if x == "." else x
+            if x != "." and x not in outs:
+                outs.append(x)
+    schemas = []
+    for r, ds, fs in os.walk(d):
+        for f in fs:
+            if f.endswith(".graphql") or f.endswith(".graphqls"):
+                x = os.path.relpath(r, d)
+                if x != "." and x not in schemas:
+                    schemas.append(x)
+    schemas.sort()
+    return {"root": [""], "out": outs or ["cmd/tool"], "below": [os.path.normpath(os.path.join(exec_dir, "zz_inner"))],
+            "schema": schemas or ["cmd/tool"], "sub": ["sub"], "deep": ["sub/deep"], "tool": ["cmd/tool"]}
+
+
 def write(root, name, proj, pkg_prefix):
     d = os.path.join(root, name)
     for rel, text in proj["files"].items():
